@@ -76,7 +76,8 @@ def oracle(rep):
 
 
 def spec_violated(rep):
-    r = oracle(rep)
+    # ops of this domain are independent: judge the op at which model and implementation part ways
+    r = oracle({"ops": rep["ops"][-1:], "impl": rep["impl"][-1:]})
     return r[1] if r else None
 
 
